@@ -446,24 +446,9 @@ impl CClass {
 }
 
 /// Print `stmts` with comments of class `cls` injected at (a random half of) the matching positions.
-fn inject(stmts: &[H], cls: CClass, r: &mut Rng, every: bool) -> (String, usize) {
-    let mut n = 0usize;
-    let mut out_stmts: Vec<String> = Vec::new();
-    for (si, s) in stmts.iter().enumerate() {
-        let mut rr = Rng(r.next());
-        let mut pending_close_newline = false;
-        let mut text = {
-            let mut deco = |g: Gap| -> Option<String> {
-                // a same-line comment must be followed by a line break before the closer
-                if pending_close_newline && matches!(g, Gap::BeforeListClose | Gap::BeforeRecClose) {
-                    pending_close_newline = false;
-                    if matches!(cls, CClass::P7bListLastItemEolThenOwnLine | CClass::P11bRecLastItemEolThenOwnLine) {
-                        n += 2;
-                        return Some(format!("\n  // own{}_{}a\n  // own{}_{}b\n", si, n, si, n));
-                    }
-                    return Some("\n".to_string());
-                }
-                let hit = match (cls, g) {
+/// where a comment of class `cls` goes, and in which textual form
+fn gap_hit(cls: CClass, g: Gap) -> Option<u8> {
+    match (cls, g) {
                     (CClass::P4ListAfterOpen, Gap::AfterListOpen) => Some(1),
                     (CClass::P5ListAfterCommaOwnLine, Gap::AfterListComma) => Some(1),
                     (CClass::P5bListAfterCommaSameLine, Gap::AfterListComma) => Some(2),
@@ -485,8 +470,33 @@ fn inject(stmts: &[H], cls: CClass, r: &mut Rng, every: bool) -> (String, usize)
                     (CClass::Q5AfterArrow, Gap::AfterArrow) => Some(8),
                     (CClass::Q6InsideParens, Gap::AfterOpenParen | Gap::BeforeCloseParen) => Some(8),
                     (CClass::Q8AfterRecColon, Gap::AfterRecColon) => Some(8),
-                    _ => None,
-                };
+        _ => None,
+    }
+}
+
+fn inject(stmts: &[H], cls: CClass, r: &mut Rng, every: bool) -> (String, usize) {
+    inject_two(stmts, cls, None, r, every)
+}
+
+/// comments of class `cls` and, in the same statements, of a second class `cls2` (e.g. one the tree carries and one it does not)
+fn inject_two(stmts: &[H], cls: CClass, cls2: Option<CClass>, r: &mut Rng, every: bool) -> (String, usize) {
+    let mut n = 0usize;
+    let mut out_stmts: Vec<String> = Vec::new();
+    for (si, s) in stmts.iter().enumerate() {
+        let mut rr = Rng(r.next());
+        let mut pending_close_newline = false;
+        let mut text = {
+            let mut deco = |g: Gap| -> Option<String> {
+                // a same-line comment must be followed by a line break before the closer
+                if pending_close_newline && matches!(g, Gap::BeforeListClose | Gap::BeforeRecClose) {
+                    pending_close_newline = false;
+                    if matches!(cls, CClass::P7bListLastItemEolThenOwnLine | CClass::P11bRecLastItemEolThenOwnLine) {
+                        n += 2;
+                        return Some(format!("\n  // own{}_{}a\n  // own{}_{}b\n", si, n, si, n));
+                    }
+                    return Some("\n".to_string());
+                }
+                let hit = gap_hit(cls, g).or_else(|| cls2.and_then(|c2| gap_hit(c2, g)));
                 let kind = hit?;
                 if !every && !rr.chance(1, 2) {
                     return None;
@@ -565,6 +575,11 @@ fn layout_programs() -> Vec<(&'static str, String)> {
         ("else-if-chain", cond), ("long-condition", cond_long_if), ("lambda-do", lam_do), ("via-where-into", via_chain), ("via-lambda-do", via_do),
         ("nested-collections", nested), ("output", out), ("long-lambda", lam_long), ("call-with-lambda", call_lam), ("unary-postfix-mix", unary),
         ("string-quotes", strs), ("record-keys", keys),
+        // statements that start with a unary minus, after every kind of statement (the drivers track "first statement" state)
+        ("minus-after-output", "// totals\noutput total = 10\n(-total)\n(-3 + total)".to_string()),
+        ("minus-after-outputs-and-comment", "output a = 1\noutput b = 2\n// note\n(-a)\noutput c = (-b)\n(-c)".to_string()),
+        ("minus-first-statement", "(-1)\n(-2)\nx = 3\n(-x)".to_string()),
+        ("minus-after-assignment-and-blank-lines", "x = 1\n\n\n(-x)\n\n(-x) + 1  // eol".to_string()),
     ]
 }
 
@@ -628,7 +643,19 @@ pub fn run(which: &str, ctx: &Ctx, sink: &mut Sink) {
         }
         // ---- the same shapes with one identifier leaf replaced by a string literal that spans lines / holds a
         // carriage return / looks like a comment: a literal's text must come through every layout unchanged
-        let awkward = ["cr\r\nlf", "two\nlines\n  indented", "// no comment", "tab\there"];
+        let awkward: Vec<H> = vec![
+            H::Str("cr\r\nlf".to_string()),
+            H::Str("two\nlines\n  indented".to_string()),
+            H::Str("// no comment".to_string()),
+            H::Str("tab\there".to_string()),
+            // number literals at the edges of the printer's cases (tiny, subnormal, huge whole, long fraction)
+            H::Num(F(1.6e-19)),
+            H::Num(F(5e-324)),
+            H::Num(F(123456789012345680000.0)),
+            H::Num(F(0.1 + 0.2)),
+            H::Num(F(1e21)),
+            H::Num(F(2.5e-308)),
+        ];
         let mut base_shapes = shapes::two_level();
         base_shapes.extend(shapes::wrapped_two_level());
         let step = if ctx.quick { 7 } else { 1 };
@@ -643,8 +670,8 @@ pub fn run(which: &str, ctx: &Ctx, sink: &mut Sink) {
             let mut paths = Vec::new();
             id_leaf_paths(&sh.tree, &mut Vec::new(), &mut paths);
             for (pi, p) in paths.iter().enumerate() {
-                let lit = awkward[(si + pi) % awkward.len()];
-                let t = replace_path(&sh.tree, p, &H::Str(lit.to_string()));
+                let lit = &awkward[(si + pi) % awkward.len()];
+                let t = replace_path(&sh.tree, p, lit);
                 let src = print_full(&t);
                 match parse1(&src) {
                     Ok(a) if a == t => {}
@@ -654,7 +681,7 @@ pub fn run(which: &str, ctx: &Ctx, sink: &mut Sink) {
                     }
                 }
                 for w in [Some(1), Some(20), None] {
-                    check_stmt(&v, sink, &src, w, Some((&sh.ctx, "string-literal-leaf")), "string-leaf");
+                    check_stmt(&v, sink, &src, w, Some((&sh.ctx, if matches!(lit, H::Str(_)) { "string-literal-leaf" } else { "number-literal-leaf" })), "literal-leaf");
                 }
             }
         }
@@ -799,7 +826,12 @@ pub fn run(which: &str, ctx: &Ctx, sink: &mut Sink) {
             let inner = [CClass::P4ListAfterOpen, CClass::P5ListAfterCommaOwnLine, CClass::P6ListBeforeClose, CClass::P7ListLastItemEol, CClass::P8RecAfterOpen,
                 CClass::P9RecAfterCommaOwnLine, CClass::P10RecBeforeClose, CClass::P11RecLastItemEol, CClass::P12DoAfterOpen, CClass::P13DoBeforeStmt,
                 CClass::P14DoBeforeReturn][r.below(11)];
-            let (src, _) = inject(&stmts, inner, &mut r, false);
+            let second = if r.chance(1, 2) {
+                Some([CClass::Q1CallArgs, CClass::Q2AfterInfixOp, CClass::Q3BeforeInfixOp, CClass::Q4CondParts, CClass::Q5AfterArrow, CClass::Q6InsideParens, CClass::Q8AfterRecColon][r.below(7)])
+            } else {
+                None
+            };
+            let (src, _) = inject_two(&stmts, inner, second, &mut r, second.is_some());
             let lines: Vec<String> = src.split('\n').map(|s| s.to_string()).collect();
             let mut out = String::new();
             for (k, l) in lines.iter().enumerate() {
